@@ -989,30 +989,30 @@ Proof. unfold with_new_l0_run. destruct (levels v); [congruence|reflexivity]. Qe
 (** * 11. The shared loop of with_merge / with_moved *)
 
 (** the levels as they are right before the per-level [optimize_runs]; [d] counts down to
-    the destination level *)
-Fixpoint pre_levels (d : nat) (ids : list N) (new : list table) (ls : list level)
+    the destination level; [ins] are the runs spliced in front of it *)
+Fixpoint pre_levels (d : nat) (ids : list N) (ins : list run) (ls : list level)
   {struct ls} : list level :=
   match ls with
   | [] => []
   | l :: ls' =>
       match d with
-      | O => (run_new new ++ retain_runs ids l) :: map (retain_runs ids) ls'
-      | S d' => retain_runs ids l :: pre_levels d' ids new ls'
+      | O => (ins ++ retain_runs ids l) :: map (retain_runs ids) ls'
+      | S d' => retain_runs ids l :: pre_levels d' ids ins ls'
       end
   end.
 
-Lemma vs_rebuild_past idx ids new dest ls :
+Lemma vs_rebuild_past idx ids ins dest ls :
   (dest < idx)%nat ->
-  rebuild_from idx ids new dest ls = map optimize_runs (map (retain_runs ids) ls).
+  rebuild_from idx ids ins dest ls = map optimize_runs (map (retain_runs ids) ls).
 Proof.
   revert idx; induction ls as [|l ls IH]; intros idx Hlt; [reflexivity|].
   cbn [rebuild_from map]. assert (E : Nat.eqb idx dest = false) by (apply Nat.eqb_neq; lia).
   rewrite E. f_equal. apply IH. lia.
 Qed.
 
-Lemma vs_rebuild_shape idx ids new dest ls :
+Lemma vs_rebuild_shape idx ids ins dest ls :
   (idx <= dest)%nat ->
-  rebuild_from idx ids new dest ls = map optimize_runs (pre_levels (dest - idx) ids new ls).
+  rebuild_from idx ids ins dest ls = map optimize_runs (pre_levels (dest - idx) ids ins ls).
 Proof.
   revert idx; induction ls as [|l ls IH]; intros idx Hle; [reflexivity|].
   cbn [rebuild_from pre_levels]. destruct (dest - idx)%nat as [|d'] eqn:D.
@@ -1022,42 +1022,42 @@ Proof.
     rewrite E. cbn [map]. f_equal. rewrite IH by lia. do 2 f_equal. lia.
 Qed.
 
-Lemma vs_pre_levels_length d ids new ls : length (pre_levels d ids new ls) = length ls.
+Lemma vs_pre_levels_length d ids ins ls : length (pre_levels d ids ins ls) = length ls.
 Proof.
   revert d; induction ls as [|l ls IH]; intros d; [reflexivity|].
   destruct d; cbn [pre_levels length]; [now rewrite map_length|now rewrite IH].
 Qed.
 
-Lemma vs_pre_levels_out d ids new ls :
-  (length ls <= d)%nat -> pre_levels d ids new ls = map (retain_runs ids) ls.
+Lemma vs_pre_levels_out d ids ins ls :
+  (length ls <= d)%nat -> pre_levels d ids ins ls = map (retain_runs ids) ls.
 Proof.
   revert d; induction ls as [|l ls IH]; intros d Hle; [reflexivity|].
   cbn [length] in Hle. destruct d as [|d]; [lia|].
   cbn [pre_levels map]. f_equal. apply IH. lia.
 Qed.
 
-Lemma vs_pre_levels_tables d ids new ls :
+Lemma vs_pre_levels_tables d ids ins ls :
   (d < length ls)%nat ->
-  tables_of (pre_levels d ids new ls)
-  = kept ids (tables_of (firstn d ls)) ++ new ++ kept ids (tables_of (skipn d ls)).
+  tables_of (pre_levels d ids ins ls)
+  = kept ids (tables_of (firstn d ls)) ++ concat ins ++ kept ids (tables_of (skipn d ls)).
 Proof.
   revert d; induction ls as [|l ls IH]; intros d Hlt; [cbn [length] in Hlt; lia|].
   destruct d as [|d]; cbn [pre_levels firstn skipn].
-  - rewrite !vs_tables_of_cons, concat_app, vs_concat_run_new, vs_concat_retain,
+  - rewrite !vs_tables_of_cons, concat_app, vs_concat_retain,
       vs_tables_of_retain, vs_kept_app.
     change (kept ids (tables_of [])) with (@nil table). cbn [app]. now rewrite app_assoc.
   - cbn [length] in Hlt. rewrite !vs_tables_of_cons, IH by lia.
     now rewrite vs_kept_app, vs_concat_retain, app_assoc.
 Qed.
 
-Lemma vs_pre_levels_runs_ok d ids new ls :
-  opt_run_ok new = true ->
+Lemma vs_pre_levels_runs_ok d ids ins ls :
+  forallb run_ok ins = true ->
   Forall (fun l => forallb run_ok l = true) ls ->
-  Forall (fun l => forallb run_ok l = true) (pre_levels d ids new ls).
+  Forall (fun l => forallb run_ok l = true) (pre_levels d ids ins ls).
 Proof.
   intros Hn. revert d; induction ls as [|l ls IH]; intros d H; [constructor|].
   inversion H as [|? ? Hl Hls]; subst. destruct d as [|d]; cbn [pre_levels]; constructor.
-  - rewrite forallb_app, vs_opt_run_ok_run_new, vs_retain_runs_ok; auto.
+  - rewrite forallb_app, Hn, vs_retain_runs_ok; auto.
   - apply Forall_forall. intros l' Hl'. apply in_map_iff in Hl'. destruct Hl' as [l0 [<- Hl0]].
     rewrite Forall_forall in Hls. apply vs_retain_runs_ok. auto.
   - now apply vs_retain_runs_ok.
@@ -1065,16 +1065,16 @@ Proof.
 Qed.
 
 (** the heart of with_merge_inv / with_moved_inv *)
-Lemma vs_pre_levels_inv d ids new ls :
+Lemma vs_pre_levels_inv d ids ins ls :
   (d < length ls)%nat ->
   levels_inv ls ->
-  opt_run_ok new = true ->
-  NoDup (map tid (new ++ kept ids (tables_of ls))) ->
-  all_newer (kept ids (tables_of (firstn d ls))) new = true ->
-  all_newer new (kept ids (tables_of (skipn d ls))) = true ->
-  levels_inv (pre_levels d ids new ls).
+  forallb run_ok ins = true -> trec (concat ins) ->
+  NoDup (map tid (concat ins ++ kept ids (tables_of ls))) ->
+  all_newer (kept ids (tables_of (firstn d ls))) (concat ins) = true ->
+  all_newer (concat ins) (kept ids (tables_of (skipn d ls))) = true ->
+  levels_inv (pre_levels d ids ins ls).
 Proof.
-  intros Hd [Hok [Hnd Hrec]] Hn Hfresh Hup Hdown.
+  intros Hd [Hok [Hnd Hrec]] Hn Hnr Hfresh Hup Hdown.
   assert (Es : tables_of ls = tables_of (firstn d ls) ++ tables_of (skipn d ls)).
   { now rewrite <- vs_tables_of_app, firstn_skipn. }
   rewrite vs_all_newer_iff in Hup, Hdown.
@@ -1087,21 +1087,21 @@ Proof.
     rewrite Es in Hrec. apply (vs_trec_filter (fun t => negb (id_in ids t))) in Hrec.
     rewrite filter_app in Hrec. apply vs_trec_app in Hrec. destruct Hrec as [Ra [Rb Rab]].
     apply vs_trec_app. split; [exact Ra|]. split.
-    + apply vs_trec_app. split; [now apply vs_opt_run_ok_trec|]. split; [exact Rb|exact Hdown].
+    + apply vs_trec_app. split; [exact Hnr|]. split; [exact Rb|exact Hdown].
     + intros x y Hx Hy. apply in_app_or in Hy. destruct Hy as [Hy|Hy]; [now apply Hup|].
       now apply Rab.
 Qed.
 
-Lemma vs_rebuild_inv ids new dest ls :
+Lemma vs_rebuild_inv ids ins dest ls :
   levels_inv ls ->
-  opt_run_ok new = true ->
-  NoDup (map tid (new ++ kept ids (tables_of ls))) ->
-  all_newer (kept ids (tables_of (firstn dest ls))) new = true ->
-  all_newer new (kept ids (tables_of (skipn dest ls))) = true ->
-  levels_inv (rebuild_from O ids new dest ls) /\
-  length (rebuild_from O ids new dest ls) = length ls.
+  forallb run_ok ins = true -> trec (concat ins) ->
+  NoDup (map tid (concat ins ++ kept ids (tables_of ls))) ->
+  all_newer (kept ids (tables_of (firstn dest ls))) (concat ins) = true ->
+  all_newer (concat ins) (kept ids (tables_of (skipn dest ls))) = true ->
+  levels_inv (rebuild_from O ids ins dest ls) /\
+  length (rebuild_from O ids ins dest ls) = length ls.
 Proof.
-  intros I Hn Hfresh Hup Hdown.
+  intros I Hn Hnr Hfresh Hup Hdown.
   rewrite vs_rebuild_shape by lia. rewrite Nat.sub_0_r.
   split; [|now rewrite map_length, vs_pre_levels_length].
   eapply vs_levels_rel_inv; [apply vs_lvl_rel_map_opt|].
@@ -1123,7 +1123,9 @@ Proof.
   apply andb_true_iff in Hc. destruct Hc as [Hrun Hfresh].
   apply andb_true_iff in Hp. destruct Hp as [Hup Hdown].
   apply vs_nodup_N_b in Hfresh.
-  destruct (vs_rebuild_inv old_ids new_tables dest (levels v) I Hrun Hfresh Hup Hdown) as [I' L'].
+  destruct (vs_rebuild_inv old_ids (run_new new_tables) dest (levels v) I) as [I' L'];
+    rewrite ?vs_concat_run_new;
+    auto using vs_opt_run_ok_run_new, vs_opt_run_ok_trec.
   unfold with_merge. cbn [levels]. split; [now rewrite L'|exact I'].
 Qed.
 
@@ -1132,36 +1134,6 @@ Lemma with_merge_vid v old_ids new_tables dest :
 Proof. reflexivity. Qed.
 
 (** * 13. with_moved *)
-
-Theorem with_moved_inv v ids dest :
-  version_inv v = true -> move_choice_ok v ids dest = true ->
-  version_inv (with_moved v ids dest) = true.
-Proof.
-  intros Hv Hc. unfold with_moved.
-  destruct (Nat.eqb (length (filter (id_in ids) (all_tables v))) (length ids)); [|assumption].
-  rewrite vs_version_inv_iff in *. destruct Hv as [L I].
-  unfold move_choice_ok, place_ok in Hc.
-  apply andb_true_iff in Hc. destruct Hc as [Hdis Hp].
-  apply andb_true_iff in Hp. destruct Hp as [Hup Hdown].
-  change (all_tables v) with (tables_of (levels v)) in *.
-  set (aff := filter (id_in ids) (tables_of (levels v))) in *.
-  assert (Hrun : opt_run_ok aff = true).
-  { unfold opt_run_ok. rewrite Hdis, andb_true_r. apply forallb_forall. intros t Ht.
-    apply filter_In in Ht. destruct Ht as [Ht _].
-    unfold tables_of in Ht. apply in_concat in Ht. destruct Ht as [r [Hr Ht]].
-    apply in_concat in Hr. destruct Hr as [l [Hl Hr]].
-    destruct I as [Hok _]. rewrite Forall_forall in Hok. specialize (Hok l Hl).
-    rewrite forallb_forall in Hok. specialize (Hok r Hr). apply vs_run_ok_parts in Hok.
-    destruct Hok as [_ [T _]]. rewrite forallb_forall in T. auto. }
-  assert (Hfresh : NoDup (map tid (aff ++ kept ids (tables_of (levels v))))).
-  { destruct I as [_ [Hnd _]]. eapply Permutation_NoDup; [|exact Hnd].
-    apply Permutation_map, Permutation_sym. apply vs_perm_filter_split. }
-  destruct (vs_rebuild_inv ids aff dest (levels v) I Hrun Hfresh Hup Hdown) as [I' L'].
-  cbn [levels]. split; [now rewrite L'|exact I'].
-Qed.
-
-(** * 13b. The conditions are exact: necessity of [place_ok] (and of freshness and
-    [table_ok] of the new tables) for a destination level that exists *)
 
 Lemma vs_levels_table_ok ls t :
   Forall (fun l => forallb run_ok l = true) ls -> In t (tables_of ls) -> table_ok t = true.
@@ -1173,12 +1145,90 @@ Proof.
   destruct Hok as [_ [T _]]. rewrite forallb_forall in T. auto.
 Qed.
 
-Lemma vs_pre_levels_split d ids new ls :
+Lemma vs_moved_runs_eq ts : moved_runs ts = map (fun t => [t]) ts.
+Proof.
+  unfold moved_runs. induction ts as [|t ts IH]; [reflexivity|].
+  change (flat_map (fun t => run_new [t]) (t :: ts))
+    with ([t] :: flat_map (fun t => run_new [t]) ts).
+  cbn [map]. now rewrite IH.
+Qed.
+
+Lemma vs_concat_moved_runs ts : concat (moved_runs ts) = ts.
+Proof.
+  rewrite vs_moved_runs_eq. induction ts as [|t ts IH]; [reflexivity|].
+  cbn [map concat app]. now rewrite IH.
+Qed.
+
+Lemma vs_moved_runs_ok ts :
+  forallb table_ok ts = true -> forallb run_ok (moved_runs ts) = true.
+Proof.
+  rewrite vs_moved_runs_eq. induction ts as [|t ts IH]; [reflexivity|].
+  cbn [forallb map]. intros H. apply andb_true_iff in H. destruct H as [Ht Hts].
+  rewrite (IH Hts), andb_true_r. cbn [run_ok forallb run_disjoint_b]. now rewrite Ht.
+Qed.
+
+(** facts about the moved tables that follow from the invariant of [v] alone *)
+Lemma vs_affected_facts ids ls :
+  levels_inv ls ->
+  let aff := filter (id_in ids) (tables_of ls) in
+  forallb table_ok aff = true /\ trec aff /\
+  NoDup (map tid (aff ++ kept ids (tables_of ls))).
+Proof.
+  intros [Hok [Hnd Hrec]] aff. split; [|split].
+  - apply forallb_forall. intros t Ht. apply filter_In in Ht. destruct Ht as [Ht _].
+    eapply vs_levels_table_ok; eauto.
+  - now apply vs_trec_filter.
+  - eapply Permutation_NoDup; [|exact Hnd].
+    apply Permutation_map, Permutation_sym. apply vs_perm_filter_split.
+Qed.
+
+(** current with_moved: the placement condition is all that is needed *)
+Theorem with_moved_inv v ids dest :
+  version_inv v = true -> move_choice_ok v ids dest = true ->
+  version_inv (with_moved v ids dest) = true.
+Proof.
+  intros Hv Hc. unfold with_moved.
+  destruct (Nat.eqb (length (filter (id_in ids) (all_tables v))) (length ids)); [|assumption].
+  rewrite vs_version_inv_iff in *. destruct Hv as [L I].
+  unfold move_choice_ok, place_ok in Hc.
+  apply andb_true_iff in Hc. destruct Hc as [Hup Hdown].
+  change (all_tables v) with (tables_of (levels v)) in *.
+  destruct (vs_affected_facts ids (levels v) I) as [Ht [Hr Hfresh]].
+  set (aff := filter (id_in ids) (tables_of (levels v))) in *.
+  destruct (vs_rebuild_inv ids (moved_runs aff) dest (levels v) I) as [I' L'];
+    rewrite ?vs_concat_moved_runs; auto using vs_moved_runs_ok.
+  cbn [levels]. split; [now rewrite L'|exact I'].
+Qed.
+
+(** pre-fix with_moved: needed the moved tables to form a legal run in addition *)
+Theorem with_moved_old_inv v ids dest :
+  version_inv v = true -> move_choice_ok_old v ids dest = true ->
+  version_inv (with_moved_old v ids dest) = true.
+Proof.
+  intros Hv Hc. unfold with_moved_old.
+  destruct (Nat.eqb (length (filter (id_in ids) (all_tables v))) (length ids)); [|assumption].
+  rewrite vs_version_inv_iff in *. destruct Hv as [L I].
+  unfold move_choice_ok_old, place_ok in Hc.
+  apply andb_true_iff in Hc. destruct Hc as [Hdis Hp].
+  apply andb_true_iff in Hp. destruct Hp as [Hup Hdown].
+  change (all_tables v) with (tables_of (levels v)) in *.
+  destruct (vs_affected_facts ids (levels v) I) as [Ht [Hr Hfresh]].
+  set (aff := filter (id_in ids) (tables_of (levels v))) in *.
+  assert (Hrun : opt_run_ok aff = true) by (unfold opt_run_ok; now rewrite Ht, Hdis).
+  destruct (vs_rebuild_inv ids (run_new aff) dest (levels v) I) as [I' L'];
+    rewrite ?vs_concat_run_new; auto using vs_opt_run_ok_run_new.
+  cbn [levels]. split; [now rewrite L'|exact I'].
+Qed.
+
+(** * 13b. The conditions are exact: necessity of [place_ok] (and of freshness and
+    [table_ok] of the inserted tables) for a destination level that exists *)
+
+Lemma vs_pre_levels_split d ids ins ls :
   (d < length ls)%nat ->
   exists ld B, skipn d ls = ld :: B /\
-    pre_levels d ids new ls
+    pre_levels d ids ins ls
     = map (retain_runs ids) (firstn d ls)
-      ++ (run_new new ++ retain_runs ids ld) :: map (retain_runs ids) B.
+      ++ (ins ++ retain_runs ids ld) :: map (retain_runs ids) B.
 Proof.
   revert d; induction ls as [|l ls IH]; intros d Hlt; [cbn [length] in Hlt; lia|].
   destruct d as [|d]; cbn [pre_levels firstn skipn map app].
@@ -1215,26 +1265,28 @@ Proof.
   apply Permutation_sym, optimize_runs_perm.
 Qed.
 
-Theorem merge_choice_necessary v ids new dest :
+(** [ins]: the runs spliced at the front of level [dest] (one run for with_merge, one
+    run per table for with_moved) *)
+Theorem rebuild_choice_necessary v ids ins dest :
   version_inv v = true -> (dest < length (levels v))%nat ->
-  version_inv (mkV (vid v + 1) (rebuild_from O ids new dest (levels v))) = true ->
-  forallb table_ok new = true /\
-  nodup_N_b (map tid (new ++ kept ids (all_tables v))) = true /\
-  place_ok v ids new dest = true.
+  version_inv (mkV (vid v + 1) (rebuild_from O ids ins dest (levels v))) = true ->
+  forallb table_ok (concat ins) = true /\
+  nodup_N_b (map tid (concat ins ++ kept ids (all_tables v))) = true /\
+  place_ok v ids (concat ins) dest = true.
 Proof.
   rewrite !vs_version_inv_iff. cbn [levels]. intros [L I] Hd [_ [Hok' [Hnd' Hrec']]].
   change (all_tables v) with (tables_of (levels v)).
   set (ls := levels v) in *.
   rewrite vs_rebuild_shape in Hok', Hnd', Hrec' by lia. rewrite Nat.sub_0_r in *.
-  set (pre := pre_levels dest ids new ls) in *.
+  set (pre := pre_levels dest ids ins ls) in *.
   assert (P : Permutation (tables_of pre) (tables_of (map optimize_runs pre))).
   { rewrite !vs_tables_of_eq. apply vs_perm_concat_Forall2, vs_map_opt_perm. }
-  assert (Et : tables_of pre = kept ids (tables_of (firstn dest ls)) ++ new
+  assert (Et : tables_of pre = kept ids (tables_of (firstn dest ls)) ++ concat ins
                                ++ kept ids (tables_of (skipn dest ls))).
   { now apply vs_pre_levels_tables. }
   assert (Es : tables_of ls = tables_of (firstn dest ls) ++ tables_of (skipn dest ls)).
   { now rewrite <- vs_tables_of_app, firstn_skipn. }
-  assert (Tnew : forall n, In n new -> table_ok n = true).
+  assert (Tnew : forall n, In n (concat ins) -> table_ok n = true).
   { intros n Hn. apply (vs_levels_table_ok (map optimize_runs pre)); [assumption|].
     eapply Permutation_in; [exact P|]. rewrite Et. apply in_or_app. right.
     apply in_or_app. now left. }
@@ -1242,7 +1294,7 @@ Proof.
   - apply vs_nodup_N_b. eapply Permutation_NoDup; [|exact Hnd'].
     apply Permutation_map. eapply perm_trans; [apply Permutation_sym; exact P|].
     rewrite Et, Es, vs_kept_app. apply Permutation_app_swap_app.
-  - destruct (vs_pre_levels_split dest ids new ls Hd) as (ld & B & Esk & Epre).
+  - destruct (vs_pre_levels_split dest ids ins ls Hd) as (ld & B & Esk & Epre).
     rewrite vs_tables_of_eq in Hrec'. apply vs_trec_concat in Hrec'.
     destruct Hrec' as [Hlv Hg].
     assert (Hg' : grp_rec (map (@concat table) pre)).
@@ -1250,7 +1302,7 @@ Proof.
     fold pre in Epre. rewrite Epre in Hg'. rewrite map_app in Hg'. cbn [map] in Hg'.
     apply vs_grp_rec_split in Hg'. destruct Hg' as [Hup Hdown].
     rewrite <- !vs_tables_of_eq, !vs_tables_of_retain in Hup, Hdown.
-    rewrite concat_app, vs_concat_run_new, vs_concat_retain in Hup, Hdown.
+    rewrite concat_app, vs_concat_retain in Hup, Hdown.
     unfold place_ok. fold ls. apply andb_true_iff. split; apply vs_all_newer_iff.
     + intros x n Hx Hn. apply Hup; [assumption|]. apply in_or_app. now left.
     + intros n y Hn Hy. rewrite Esk, vs_tables_of_cons, vs_kept_app in Hy.
@@ -1258,20 +1310,20 @@ Proof.
         [|apply Hdown; [apply in_or_app; now left|assumption]].
       (* same level: the order theorem *)
       destruct (kr_overlaps n y) eqn:O.
-      * assert (Hin : In (optimize_runs (run_new new ++ retain_runs ids ld))
+      * assert (Hin : In (optimize_runs (ins ++ retain_runs ids ld))
                          (map optimize_runs pre)).
         { rewrite Epre, map_app. apply in_or_app. right. now left. }
         rewrite Forall_forall in Hlv.
-        assert (Rd : trec (concat (optimize_runs (run_new new ++ retain_runs ids ld)))).
+        assert (Rd : trec (concat (optimize_runs (ins ++ retain_runs ids ld)))).
         { apply Hlv. now apply in_map. }
         eapply vs_trec_occurs; [exact Rd|].
-        destruct new as [|n0 new']; [contradiction|]. cbn [run_new app] in *.
         rewrite <- vs_concat_retain in Hy.
+        destruct ins as [|i0 ins']; [contradiction|].
         destruct (retain_runs ids ld) as [|r0 rs0] eqn:Er; [contradiction|].
-        rewrite vs_optimize_runs_big by (cbn [length]; lia).
+        rewrite vs_optimize_runs_big by (rewrite app_length; cbn [length]; lia).
         apply vs_runs_before_occurs. apply vs_opt_fold_order; [|assumption].
-        cbn [concat]. apply in_split in Hn. destruct Hn as [a1 [a2 ->]].
-        apply in_split in Hy. destruct Hy as [b1 [b2 Eb]]. cbn [concat] in Eb. rewrite Eb.
+        rewrite concat_app. apply in_split in Hn. destruct Hn as [a1 [a2 ->]].
+        apply in_split in Hy. destruct Hy as [b1 [b2 ->]].
         exists a1, (a2 ++ b1), b2. now rewrite <- !app_assoc.
       * apply vs_no_overlap_newer; [apply vs_table_ok_keys; auto| |assumption].
         apply vs_table_ok_keys. destruct I as [Hok _].
@@ -1288,20 +1340,22 @@ Corollary with_merge_inv_iff v old_ids new_tables dest :
    <-> merge_choice_ok v old_ids new_tables dest = true).
 Proof.
   intros Hv Hd Hdis. split; [|now apply with_merge_inv].
-  intros H. destruct (merge_choice_necessary v old_ids new_tables dest Hv Hd H) as [T [F P]].
+  intros H. destruct (rebuild_choice_necessary v old_ids _ dest Hv Hd H) as [T [F P]].
+  rewrite vs_concat_run_new in T, F, P.
   unfold merge_choice_ok, opt_run_ok. now rewrite T, Hdis, F, P.
 Qed.
 
+(** current with_moved: [move_choice_ok] (= [place_ok] of the moved tables) is exactly
+    what is needed, with no side condition on the moved tables *)
 Corollary with_moved_inv_iff v ids dest :
   version_inv v = true -> (dest < length (levels v))%nat ->
   length (filter (id_in ids) (all_tables v)) = length ids ->       (* the assert_eq! holds *)
-  run_disjoint_b (filter (id_in ids) (all_tables v)) = true ->
   (version_inv (with_moved v ids dest) = true <-> move_choice_ok v ids dest = true).
 Proof.
-  intros Hv Hd Hlen Hdis. split; [|now apply with_moved_inv].
+  intros Hv Hd Hlen. split; [|now apply with_moved_inv].
   unfold with_moved. rewrite Hlen, Nat.eqb_refl. intros H.
-  destruct (merge_choice_necessary v ids _ dest Hv Hd H) as [_ [_ P]].
-  unfold move_choice_ok. now rewrite Hdis, P.
+  destruct (rebuild_choice_necessary v ids _ dest Hv Hd H) as [_ [_ P]].
+  rewrite vs_concat_moved_runs in P. exact P.
 Qed.
 
 (** * 14. The link to [check_inv_sv] *)
@@ -1502,13 +1556,60 @@ Example with_moved_past_overlap_read :
   runs_get (fun _ _ => true) (all_runs (with_moved v [2] 3)) [1] 100 = Some (ev 1 3).
 Proof. repeat split; vm_compute; reflexivity. Qed.
 
-(** moving two tables that do not form a sorted disjoint run (iter_tables order T2, T3:
-    overlapping) into an empty level: the single run of the level is not a legal run,
-    [optimize_runs] returns it unchanged because there is only one *)
-Example with_moved_bad_run :
-  move_choice_ok v0 [2; 3] 4 = false /\
-  levels (with_moved v0 [2; 3] 4) = [[[T1]]; []; [[T4]; [T5]]; []; [[T2; T3]]; []; []] /\
-  forallb run_ok (all_runs (with_moved v0 [2; 3] 4)) = false.
+(** PRE-FIX witness (with_moved_old = with_moved of 3.1.9 as shipped): moving two tables
+    that do not form a sorted disjoint run (iter_tables order T2, T3: overlapping) into an
+    empty level: the single run of the level is not a legal run, and [optimize_runs]
+    returns it unchanged because there is only one *)
+Example with_moved_old_bad_run :
+  version_inv v0 = true /\
+  move_choice_ok_old v0 [2; 3] 4 = false /\
+  levels (with_moved_old v0 [2; 3] 4) = [[[T1]]; []; [[T4]; [T5]]; []; [[T2; T3]]; []; []] /\
+  forallb run_ok (all_runs (with_moved_old v0 [2; 3] 4)) = false /\
+  version_inv (with_moved_old v0 [2; 3] 4) = false.
+Proof. repeat split; vm_compute; reflexivity. Qed.
+
+(** the same move on the CURRENT with_moved: each table enters as its own run, the two
+    overlapping tables stay in two runs (T2 first), the invariant holds *)
+Example with_moved_two_overlapping :
+  move_choice_ok v0 [2; 3] 4 = true /\
+  levels (with_moved v0 [2; 3] 4) = [[[T1]]; []; [[T4]; [T5]]; []; [[T2]; [T3]]; []; []] /\
+  version_inv (with_moved v0 [2; 3] 4) = true.
+Proof. repeat split; vm_compute; reflexivity. Qed.
+
+(** exactly one moved table into an empty level: [optimize_runs] takes its
+    [len <= 1] shortcut, the lone single-table run is legal *)
+Example with_moved_single_into_empty :
+  move_choice_ok v0 [5] 4 = true /\
+  levels (with_moved v0 [5] 4) = [[[T1]]; [[T2]]; [[T3; T4]]; []; [[T5]]; []; []] /\
+  version_inv (with_moved v0 [5] 4) = true.
+Proof. repeat split; vm_compute; reflexivity. Qed.
+
+(** disjoint moved tables are packed back into one run by [optimize_runs] *)
+Example with_moved_two_disjoint :
+  move_choice_ok v0 [3; 5] 4 = true /\
+  levels (with_moved v0 [3; 5] 4) = [[[T1]]; [[T2]]; [[T4]]; []; [[T3; T5]]; []; []] /\
+  version_inv (with_moved v0 [3; 5] 4) = true /\
+  (* whereas moving T4 (key 6, seq 2) below the T5 that stays (key 6, seq 1) is refused *)
+  move_choice_ok v0 [3; 4] 4 = false /\ version_inv (with_moved v0 [3; 4] 4) = false.
+Proof. repeat split; vm_compute; reflexivity. Qed.
+
+(** the defect as found on the crate: put b; flush; put a, c; flush; MoveDown(0, 3);
+    get b.  L0 holds two overlapping runs [Tac] (newer) and [Tb]. *)
+Definition Tb := mk_table 1 [ev 98 0].
+Definition Tac := mk_table 2 [ev 97 1; ev 99 2].
+Definition vd : version := mkV 2 [[[Tac]; [Tb]]; []; []; []; []; []; []].
+Example with_moved_defect_replay :
+  version_inv vd = true /\
+  runs_get (fun _ _ => true) (all_runs vd) [98] 100 = Some (ev 98 0) /\
+  (* pre-fix: one illegal run [Tac; Tb]; Run::get_for_key stops at Tac: b is lost *)
+  levels (with_moved_old vd [1; 2] 3) = [[]; []; []; [[Tac; Tb]]; []; []; []] /\
+  version_inv (with_moved_old vd [1; 2] 3) = false /\
+  runs_get (fun _ _ => true) (all_runs (with_moved_old vd [1; 2] 3)) [98] 100 = None /\
+  (* current code: two runs, invariant holds, b is found *)
+  move_choice_ok vd [1; 2] 3 = true /\
+  levels (with_moved vd [1; 2] 3) = [[]; []; []; [[Tac]; [Tb]]; []; []; []] /\
+  version_inv (with_moved vd [1; 2] 3) = true /\
+  runs_get (fun _ _ => true) (all_runs (with_moved vd [1; 2] 3)) [98] 100 = Some (ev 98 0).
 Proof. repeat split; vm_compute; reflexivity. Qed.
 
 (** the [assert_eq!] of with_moved: unknown id, no new version *)
@@ -1527,7 +1628,8 @@ Print Assumptions with_new_l0_run_inv.
 Print Assumptions with_new_l0_run_inv'.
 Print Assumptions with_merge_inv.
 Print Assumptions with_moved_inv.
-Print Assumptions merge_choice_necessary.
+Print Assumptions with_moved_old_inv.
+Print Assumptions rebuild_choice_necessary.
 Print Assumptions with_merge_inv_iff.
 Print Assumptions with_moved_inv_iff.
 Print Assumptions check_inv_sv_version_inv.
